@@ -26,6 +26,113 @@ type Runner struct {
 	inst  *impl.Instance
 	Lines []string // the driver lines issued so far (replay prefix)
 	Host  string
+	// fsTrack: on the fs backends, keep the Lean model of the bucket directory tree (Model/FsTree)
+	// in step with every bucket/object operation issued through this Runner and compare the
+	// directories and files really present, and every refusal, with it
+	fsTrack bool
+	fsBad   bool
+}
+
+// EnableFsTrack switches the directory-tree comparison on (fs backends only; every mutating
+// request of the run must go through the Runner)
+func (r *Runner) EnableFsTrack() {
+	if !r.inst.IsFs() {
+		return
+	}
+	r.fsTrack = true
+	if r.inst.IsSingle() {
+		r.tell("fsmk " + hx(impl.SingleBucketName))
+	}
+}
+
+func (r *Runner) fsAsk(line string) string {
+	m, _, err := r.c.D.Ask(line)
+	if err != nil {
+		panic(err)
+	}
+	return m
+}
+
+// fsNote: called after a mutating request; `line` is the request as the replay shows it
+func (r *Runner) fsNote(op, b, k string, body []byte, keys []string, obs, line string) {
+	if !r.fsTrack || r.fsBad {
+		return
+	}
+	bad := ""
+	refused := strings.HasPrefix(obs, "err InvalidArgument")
+	switch op {
+	case "mkbucket":
+		if obs == "ok" {
+			r.fsAsk("fsmk " + hx(b))
+		}
+	case "rmbucket":
+		if obs == "ok" {
+			r.fsAsk("fsrm " + hx(b))
+		}
+		return
+	case "put":
+		switch {
+		case strings.HasPrefix(obs, "stored"), strings.HasPrefix(obs, "copied"):
+			r.fsAsk("fsmk " + hx(b)) // idempotent; the bucket may have been auto-created
+			if m := r.fsAsk(fmt.Sprintf("fsput %s %s %s", hx(b), hx(k), drv.Hex(body))); m == "refused" {
+				bad = fmt.Sprintf("%s of %q: implementation %s, the model refuses the key", op, k, obs)
+			}
+		case refused:
+			if m := r.fsAsk(fmt.Sprintf("fscheck %s %s", hx(b), hx(k))); m == "ok" {
+				bad = fmt.Sprintf("%s of %q: implementation %s, the model accepts the key", op, k, obs)
+			}
+		}
+	case "del":
+		switch {
+		case strings.HasPrefix(obs, "deleted"):
+			if m := r.fsAsk(fmt.Sprintf("fsdel %s %s", hx(b), hx(k))); m == "refused" {
+				bad = fmt.Sprintf("DELETE of %q: implementation %s, the model refuses the key", k, obs)
+			}
+		case refused:
+			if m := r.fsAsk(fmt.Sprintf("fscheck %s %s", hx(b), hx(k))); m == "ok" {
+				bad = fmt.Sprintf("DELETE of %q: implementation %s, the model takes the key as valid", k, obs)
+			}
+		}
+	case "delmulti":
+		if strings.HasPrefix(obs, "multideleted") {
+			for _, kk := range keys {
+				r.fsAsk(fmt.Sprintf("fsdel %s %s", hx(b), hx(kk)))
+			}
+		}
+	}
+	if bad == "" {
+		r.c.R.Evaluations++
+		dirs, files, err := r.inst.BucketTree(b)
+		m := r.fsAsk("fstree " + hx(b))
+		if err == nil && strings.HasPrefix(m, "tree ") {
+			var md, mf []string
+			for _, part := range strings.Fields(m)[1:] {
+				kind, list := part[:2], part[2:]
+				if list == "-" {
+					continue
+				}
+				for _, e := range strings.Split(list, ",") {
+					if kind == "D=" {
+						d, _ := hexDecode(e)
+						md = append(md, d)
+					} else {
+						d, _ := hexDecode(strings.SplitN(e, ":", 2)[0])
+						mf = append(mf, d)
+					}
+				}
+			}
+			sort.Strings(md)
+			sort.Strings(mf)
+			if strings.Join(dirs, "\x00") != strings.Join(md, "\x00") || strings.Join(files, "\x00") != strings.Join(mf, "\x00") {
+				bad = fmt.Sprintf("after %s %q the bucket holds dirs %q files %q; the model's tree has dirs %q files %q", op, k, dirs, files, md, mf)
+			}
+		}
+	}
+	if bad != "" {
+		r.fsBad = true
+		r.c.mismatch(Mismatch{Kind: "model", Backend: r.inst.Kind, Case: append(append([]string{}, r.Lines...), line), Impl: bad,
+			Model: "the directory tree of the fs model (Model/FsTree)", Finger: "fs-tree:" + op})
+	}
 }
 
 func newRunner(c *Ctx, inst *impl.Instance, auto, failpage, novers bool) *Runner {
@@ -224,6 +331,7 @@ func (r *Runner) MkBucket(b string) (string, string) {
 	if resp.Status == 200 && resp.Panic == "" {
 		obs = "ok"
 	}
+	r.fsNote("mkbucket", b, "", nil, nil, obs, "mkbucket "+hx(b))
 	return "mkbucket " + hx(b), obs
 }
 
@@ -253,6 +361,7 @@ func (r *Runner) RmBucket(b string, force bool) (string, string) {
 	if resp.Status == 204 && resp.Panic == "" {
 		obs = "ok"
 	}
+	r.fsNote("rmbucket", b, "", nil, nil, obs, "rmbucket "+hx(b))
 	if force {
 		return "forcerm " + hx(b), obs
 	}
@@ -287,6 +396,7 @@ func (r *Runner) Put(b, k string, md map[string]string, body []byte) (string, st
 	if resp.Status == 200 && resp.Panic == "" {
 		obs = "stored " + etagHex(resp.Header.Get("ETag")) + " vid=" + vidOf(resp.Header.Get("X-Amz-Version-Id"))
 	}
+	r.fsNote("put", b, k, body, nil, obs, fmt.Sprintf("put %s %s", hx(b), hx(k)))
 	return fmt.Sprintf("put %s %s %s %s", hx(b), hx(k), metaLine(md), drv.Hex(body)), obs
 }
 
@@ -335,6 +445,7 @@ func (r *Runner) Del(b, k string) (string, string) {
 	if resp.Status == 204 && resp.Panic == "" {
 		obs = fmt.Sprintf("deleted marker=%s vid=%s", b01(resp.Header.Get("X-Amz-Delete-Marker") == "true"), vidOf(resp.Header.Get("X-Amz-Version-Id")))
 	}
+	r.fsNote("del", b, k, nil, nil, obs, fmt.Sprintf("del %s %s", hx(b), hx(k)))
 	return fmt.Sprintf("del %s %s", hx(b), hx(k)), obs
 }
 
@@ -393,6 +504,13 @@ func (r *Runner) DelMulti(b string, objs []ObjID) (string, string) {
 	if len(ids) > 0 {
 		l = strings.Join(ids, ",")
 	}
+	if r.fsTrack {
+		var ks []string
+		for _, o := range objs {
+			ks = append(ks, o.Key)
+		}
+		r.fsNote("delmulti", b, "", nil, ks, obs, fmt.Sprintf("delmulti %s %s", hx(b), l))
+	}
 	return fmt.Sprintf("delmulti %s %s", hx(b), l), obs
 }
 
@@ -413,6 +531,14 @@ func (r *Runner) Copy(sb, sk, db, dk string, md map[string]string) (string, stri
 		var d xmlCopyResult
 		xml.Unmarshal(resp.Body, &d)
 		obs = "copied " + etagHex(d.ETag) + " srcvid=" + vidOf(resp.Header.Get("X-Amz-Copy-Source-Version-Id"))
+	}
+	if r.fsTrack {
+		var body []byte
+		if strings.HasPrefix(obs, "copied") {
+			g := r.inst.Do(impl.Req{Method: "GET", Path: r.path(db, dk)})
+			body = g.Body
+		}
+		r.fsNote("put", db, dk, body, nil, obs, fmt.Sprintf("copy %s %s %s %s", hx(sb), hx(sk), hx(db), hx(dk)))
 	}
 	return fmt.Sprintf("copy %s %s %s %s %s", hx(sb), hx(sk), hx(db), hx(dk), metaLine(h)), obs
 }
